@@ -74,6 +74,33 @@ def check_tuple(tp: dict[str, Any]) -> str | None:
             len(recs[0].calls) != len(cols | rows):
         return f'groups created {recs[0].calls} != grid {sorted(cols | rows)}'
     names = [l['name'] for l in t['work']]
+    # inverse workers: the specification's (same tie-breaking as the pinned
+    # code) or, if they differ, ANY valid outcome of the greedy rule -- then
+    # the per-rank views are derived from the code's own inverse workers
+    code_inv = {l['name']: {x['f']: objs[0].inv_worker(l['name'], x['f'])
+                            for x in l['fs']} for l in t['work']}
+    spec_inv = {l['name']: {x['f']: tp['asg'][i][j]
+                            for j, x in enumerate(l['fs'])}
+                for i, l in enumerate(t['work'])}
+    drift = False
+    if code_inv != spec_inv:
+        groups = [list(g) for g in t['groups']]
+        if not assign.valid_greedy(work, groups, W, t['colocate'], code_inv):
+            return (f'rank 0: inverse workers {code_inv} are not an outcome of '
+                    f'the greedy rule (spec {spec_inv})')
+        drift = True
+    exp_gw, exp_src = [], []
+    for i, l in enumerate(t['work']):
+        ws = set(code_inv[l['name']].values())
+        colsets = [c for c in cols if ws <= set(c)]
+        if ws and len(colsets) != 1:
+            return f'inverse workers of {l["name"]} {ws} span gradient-worker groups'
+        col = set(colsets[0]) if colsets else (set(next(iter(cols))))
+        exp_gw.append([x in col for x in range(W)])
+        exp_src.append([next(iter(col & set(range((x // p) * p, (x // p + 1) * p))))
+                        for x in range(W)])
+    if not drift:
+        exp_gw, exp_src = tp['gw'], tp['src']
     for r, a in enumerate(objs):
         if list(a.get_layers()) != names:
             return f'rank {r}: layers {a.get_layers()}'
@@ -86,16 +113,17 @@ def check_tuple(tp: dict[str, Any]) -> str | None:
             if list(a.get_factors(n)) != [x['f'] for x in l['fs']]:
                 return f'rank {r}: factors of {n}'
             for j, x in enumerate(l['fs']):
-                if a.inv_worker(n, x['f']) != tp['asg'][i][j]:
+                if a.inv_worker(n, x['f']) != code_inv[n][x['f']]:
                     return (f'rank {r}: inv_worker({n},{x["f"]})='
-                            f'{a.inv_worker(n, x["f"])} spec {tp["asg"][i][j]}')
-            if a.is_grad_worker(n) != tp['gw'][i][r]:
+                            f'{a.inv_worker(n, x["f"])} but rank 0 derives '
+                            f'{code_inv[n][x["f"]]}')
+            if a.is_grad_worker(n) != exp_gw[i][r]:
                 return f'rank {r}: is_grad_worker({n})={a.is_grad_worker(n)}'
-            if a.src_grad_worker(n) != tp['src'][i][r]:
+            if a.src_grad_worker(n) != exp_src[i][r]:
                 return (f'rank {r}: src_grad_worker({n})='
-                        f'{a.src_grad_worker(n)} spec {tp["src"][i][r]}')
+                        f'{a.src_grad_worker(n)} expected {exp_src[i][r]}')
             gw = a.grad_worker_group(n)
-            col = tuple(x for x in range(W) if tp['gw'][i][x])
+            col = tuple(x for x in range(W) if exp_gw[i][x])
             if gw != ('group', col):
                 return f'rank {r}: grad_worker_group({n})={gw} expected {col}'
             gr = a.grad_receiver_group(n)
